@@ -5,6 +5,7 @@ import (
 	"net/http"
 	"net/url"
 	"sort"
+	"strconv"
 	"strings"
 
 	"github.com/gookit/rux"
@@ -406,6 +407,15 @@ func rtProject(id string, obs Sx) Sx {
 				} else {
 					out = append(out, L(A("sel"), A(r.Head())))
 				}
+			} else if q.Head() == "s" { // a served request: who ran (a route number, or nobody)
+				who := q.List[2].Atom
+				if _, err := strconv.Atoi(who); err != nil {
+					who = map[string]string{"none": "nf", "nf": "nf", "panic": "panic"}[who]
+					if who == "" {
+						who = q.List[2].Atom
+					}
+				}
+				out = append(out, L(A("sel"), A(who)))
 			}
 		case "C14": // cache contents only
 			if q.Head() == "m" {
